@@ -86,9 +86,77 @@ func onlyLoopGuards(b *ssa.BasicBlock) (bool, *Guard) {
 	}
 	if last < 0 {
 		// not inside a loop at all
+		if len(gs) == 0 {
+			if g := skippableAt(b, nil); g != nil {
+				return false, g
+			}
+		}
 		return len(gs) == 0, nil
 	}
+	if g := skippableAt(b, gs[last].If); g != nil {
+		return false, g
+	}
 	return true, nil
+}
+
+// skippableAt: a branch that dominates b from one side of which b is certain to run and from the
+// other side of which it can be passed by (a return, or the next iteration, is reached without
+// it) although neither outcome alone is implied by reaching b — the shape of
+// `if p && q { return/continue }` before b. Branches at or before the loop test `outer` were
+// decided before the loop was entered; loop tests themselves do not count.
+func skippableAt(b *ssa.BasicBlock, outer *ssa.If) *Guard {
+	doms := map[*ssa.BasicBlock]bool{}
+	for d := b.Idom(); d != nil; d = d.Idom() {
+		doms[d] = true
+	}
+	avoid := func(s *ssa.BasicBlock) bool {
+		if s == b {
+			return false
+		}
+		seen := map[*ssa.BasicBlock]bool{}
+		var walk func(x *ssa.BasicBlock) bool
+		walk = func(x *ssa.BasicBlock) bool {
+			if x == b || seen[x] {
+				return false
+			}
+			seen[x] = true
+			if doms[x] {
+				return true // round the loop without b
+			}
+			if len(x.Instrs) > 0 {
+				if _, isRet := x.Instrs[len(x.Instrs)-1].(*ssa.Return); isRet {
+					return true
+				}
+			}
+			for _, n := range x.Succs {
+				if walk(n) {
+					return true
+				}
+			}
+			return false
+		}
+		return walk(s)
+	}
+	for d := b.Idom(); d != nil; d = d.Idom() {
+		if len(d.Instrs) == 0 {
+			continue
+		}
+		iff, ok := d.Instrs[len(d.Instrs)-1].(*ssa.If)
+		if !ok || d.Succs[0] == d.Succs[1] {
+			continue
+		}
+		if outer != nil && iff == outer {
+			break
+		}
+		if isLoopGuard(Guard{Cond: iff.Cond, Pol: true, If: iff}) {
+			continue
+		}
+		a0, a1 := avoid(d.Succs[0]), avoid(d.Succs[1])
+		if a0 != a1 {
+			return &Guard{Cond: iff.Cond, Pol: a1, If: iff}
+		}
+	}
+	return nil
 }
 
 // rangeElemOf: v is the element of a range/index over collection coll (returns coll), through
